@@ -1,6 +1,9 @@
 (* drv_ex.ml -- line-protocol driver of the extracted ex model (coq/ExDefs.v).
    request:  run <wa 0|1> <file hex> <script hex> [<name hex>=<content hex> ...]
    answer:   F=<flags> X=<xrow> B=<buffer hex> W=<written hex or x> O=<items>
+   request:  parse <line hex>      the loop of ExDefs.ex_exec without the execution: ex_loc, ex_cmd, ex_idx, ex_arg, the rest after ex_txt
+   answer:   per command `<loc hex>,<cmd hex>,<S|O|U>,<arg hex>,<bytes consumed so far> ` (S: a command of the model, O: an excmds[]
+             entry outside it -- the loop stops there, ExDefs hands "unknown" to ex_arg where C hands the entry's abbreviation --, U: unknown)
              items: L<hex> (printed line, without newline) N<int> (= output) M<k> (message kind) E<hex> (echo), comma separated
    The Section variables are instantiated here: the matcher is a loop-free pattern matcher (literal
    bytes, ".", "[set]", leading "^", trailing "$"; ASCII case-insensitive, as xic = 1), the filters are
@@ -96,8 +99,30 @@ let do_run wa file script extra =
     (match s.written with None -> "x" | Some w -> hex_of_bytes w)
     (String.concat "," (List.rev_map out_item s.out))
 
+let hexd b = match b with [] -> "-" | _ -> hex_of_bytes b
+let do_parse hex =
+  let ln = bytes_of_hex hex in
+  let total = List.length ln in
+  let st0 = init_st [] [] false in
+  let rec go ln n =
+    if ln = [] || n = 0 then () else begin
+      let (ln1, loc) = ex_loc ln in
+      let (ln2, cmd) = ex_cmd ln1 in
+      let idx = ex_idx cmd in
+      let abbr = match idx with Some a -> a | None -> bytes_of_str "unknown" in
+      let (ln3, arg) = ex_arg ln2 abbr in
+      let ((ln4, _), _) = ex_txt ln3 abbr st0 in
+      let kind = match idx with Some _ -> "S" | None -> if is_other cmd then "O" else "U" in
+      pr "%s,%s,%s,%s,%d " (hexd loc) (hexd cmd) kind (hexd arg) (total - List.length ln4);
+      if kind <> "O" then go ln4 (n - 1)
+    end in
+  if ln = [] then pr "-";
+  go ln (total + 1);
+  pr "\n"
+
 let () =
   iter_lines (fun l ->
     match words l with
     | "run" :: wa :: file :: script :: extra -> (try do_run wa file script extra with Stack_overflow -> pr "F=1 X=0 B=- W=x O=\n")
+    | ["parse"; h] -> do_parse h
     | _ -> pr "?\n")
